@@ -362,8 +362,79 @@ func runC19(ctx *core.Ctx) {
 	// ShouldBuild verdict webs
 	if sb := ctx.Need("B3", "imports", "ShouldBuild"); sb != nil {
 		sg := graph(p, sb)
+		// the line verdict: a boolean merged from constants only, true somewhere under a successful term match
+		isEvalTrue := func(f ssax.Fact) bool {
+			c, ok := f.Cond.(*ssa.Call)
+			if !ok || !f.Val {
+				return false
+			}
+			for _, ev := range evals {
+				if c.Call.StaticCallee() == ev {
+					return true
+				}
+			}
+			return false
+		}
+		lineWeb := map[*ssa.Phi]bool{}
+		var boolPhis []*ssa.Phi
+		sg.Instrs(func(i ssa.Instruction) {
+			if ph, ok := i.(*ssa.Phi); ok && ph.Type().String() == "bool" {
+				boolPhis = append(boolPhis, ph)
+			}
+		})
+		// smallest webs first: a merge that merely consumes the line verdict contains its web
+		sort.SliceStable(boolPhis, func(i, j int) bool {
+			a, _ := phiWeb(boolPhis[i])
+			b, _ := phiWeb(boolPhis[j])
+			return len(a) < len(b)
+		})
+		for _, ph := range boolPhis {
+			if lineWeb[ph] {
+				continue
+			}
+			phs, lv := phiWeb(ph)
+			consumer := false
+			for q := range phs {
+				if lineWeb[q] {
+					consumer = true
+				}
+			}
+			if consumer {
+				continue
+			}
+			hit, bad := false, false
+			for _, l := range lv {
+				k, isConst := ssax.ConstBool(l.Val)
+				if !isConst {
+					bad = true
+					break
+				}
+				if k {
+					under := false
+					for _, f := range factsOnEdge(sg, l.Pred, l.Phi.Block()) {
+						if isEvalTrue(f) {
+							under = true
+						}
+					}
+					if !under {
+						bad = true // a true that does not come from a term match: not the line verdict
+						break
+					}
+					hit = true
+				}
+			}
+			if hit && !bad {
+				for q := range phs {
+					lineWeb[q] = true
+				}
+			}
+		}
 		for _, r := range sg.Returns() {
-			phis, leaves := phiWeb(r.Results[0])
+			stop := map[*ssa.Phi]bool{}
+			if q, isPhi := r.Results[0].(*ssa.Phi); !isPhi || !lineWeb[q] {
+				stop = lineWeb
+			}
+			phis, leaves := phiWebStop(r.Results[0], stop)
 			if len(phis) == 0 {
 				ctx.Bad("B3", "imports.ShouldBuild#verdict", r.Pos(), "verdict is not a loop-carried boolean")
 				continue
@@ -371,30 +442,48 @@ func runC19(ctx *core.Ctx) {
 			okAll := true
 			why := ""
 			var okWebVal ssa.Value
-			for _, l := range leaves {
-				k, isConst := ssax.ConstBool(l.Val)
-				if !isConst {
-					okAll, why = false, "verdict receives a non-constant value"
-					continue
+			for q := range lineWeb {
+				if !phis[q] {
+					okWebVal = q
 				}
-				if k {
+			}
+			inWeb := func(v ssa.Value, web map[*ssa.Phi]bool) bool {
+				q, ok := v.(*ssa.Phi)
+				return ok && web[q]
+			}
+			for _, l := range leaves {
+				facts := factsOnEdge(sg, l.Pred, l.Phi.Block())
+				k, isConst := ssax.ConstBool(l.Val)
+				switch {
+				case !isConst:
+					// allok = allok && ok: the line verdict itself may flow in, but only while the
+					// overall verdict is still true
+					still := false
+					for _, f := range facts {
+						if f.Val && inWeb(f.Cond, phis) {
+							still = true
+						}
+					}
+					if !inWeb(l.Val, lineWeb) || !still {
+						okAll, why = false, "verdict receives a value that is not the line verdict taken while the verdict is still true"
+					}
+				case k:
 					// only as the initial value: the edge must come from outside every loop containing the phi,
 					// i.e. the pred block is not dominated by the phi's block
 					if sg.DomBlock(l.Phi.Block().Index, l.Pred.Index) {
 						okAll, why = false, "verdict is set back to true inside the loop"
 					}
-					continue
-				}
-				// false leaf: needs a fact "<line verdict> == false"
-				found := false
-				for _, f := range factsOnEdge(sg, l.Pred, l.Phi.Block()) {
-					if _, isPhi := f.Cond.(*ssa.Phi); isPhi && !f.Val {
-						found = true
-						okWebVal = f.Cond
+				default:
+					// false: because the line verdict is false, or because it already was false
+					found := false
+					for _, f := range facts {
+						if !f.Val && (inWeb(f.Cond, lineWeb) || inWeb(f.Cond, phis)) {
+							found = true
+						}
 					}
-				}
-				if !found {
-					okAll, why = false, "verdict set to false without the line verdict being false"
+					if !found {
+						okAll, why = false, "verdict set to false without the line verdict being false"
+					}
 				}
 			}
 			ctx.Check(okAll, "B3", "imports.ShouldBuild#verdict", r.Pos(), "overall verdict starts true and only ever becomes false when a line verdict is false %s", why)
